@@ -726,3 +726,250 @@ def rule_measures(run: Run, prog: Program) -> int:
             run.add("E12.measure", fn.short, "formula", UNDECIDED,
                     f"written with other building blocks ({sorted(got_keys)}) than the reference form ({sorted(want_keys)}); equivalence not decided", loc)
     return n_ob
+
+
+# ---------------------------------------------------------------------------------------------- closed-form roots (C20)
+class LP:
+    """Laurent polynomial with rational coefficients over named symbols: dict {((sym, exp), ...): coef}"""
+
+    def __init__(self, terms=None):
+        self.t = {k: v for k, v in (terms or {}).items() if v != 0}
+
+    @staticmethod
+    def const(c):
+        return LP({(): Fraction(c)})
+
+    @staticmethod
+    def sym(name):
+        return LP({((name, Fraction(1)),): Fraction(1)})
+
+    def __add__(self, o):
+        out = dict(self.t)
+        for k, v in o.t.items():
+            out[k] = out.get(k, 0) + v
+        return LP(out)
+
+    def __neg__(self):
+        return LP({k: -v for k, v in self.t.items()})
+
+    def __sub__(self, o):
+        return self + (-o)
+
+    def __mul__(self, o):
+        out: dict = {}
+        for k1, v1 in self.t.items():
+            for k2, v2 in o.t.items():
+                d = dict(k1)
+                for s_, e_ in k2:
+                    d[s_] = d.get(s_, 0) + e_
+                k = tuple(sorted((s_, e_) for s_, e_ in d.items() if e_ != 0))
+                out[k] = out.get(k, 0) + v1 * v2
+        return LP(out)
+
+    def inverse(self):
+        if len(self.t) != 1:
+            raise NotPolynomial("division by a sum")
+        (k, v), = self.t.items()
+        return LP({tuple(sorted((s_, -e_) for s_, e_ in k)): 1 / v})
+
+    def power(self, n: int):
+        out = LP.const(1)
+        base = self if n >= 0 else self.inverse()
+        for _ in range(abs(n)):
+            out = out * base
+        return out
+
+    def rewrite(self, rules: dict) -> "LP":
+        """rules: symbol -> (power p, LP value): sym**p is replaced by the value (sqrt and cube-root symbols)"""
+        cur = self
+        for _ in range(12):
+            changed = False
+            out = LP()
+            for k, v in cur.t.items():
+                term = LP({(): v})
+                for s_, e_ in k:
+                    if s_ in rules and e_ >= rules[s_][0]:
+                        p_, val = rules[s_]
+                        q, r = divmod(int(e_), p_) if e_.denominator == 1 else (0, e_)
+                        if q:
+                            changed = True
+                            term = term * val.power(q) * (LP({((s_, Fraction(r)),): Fraction(1)}) if r else LP.const(1))
+                            continue
+                    term = term * LP({((s_, e_),): Fraction(1)})
+                out = out + term
+            cur = out
+            if not changed:
+                break
+        return cur
+
+    def is_zero(self):
+        return not self.t
+
+    def show(self):
+        def mono(k):
+            return "*".join(f"{s_}" + (f"^{e_}" if e_ != 1 else "") for s_, e_ in k) or "1"
+        return " + ".join(f"{v}*{mono(k)}" for k, v in sorted(self.t.items())) or "0"
+
+
+def _lp(e: ast.AST, env: dict, syms: set[str], rules: dict, depth: int = 0) -> LP:
+    if depth > 12:
+        raise NotPolynomial("too deep")
+    c = None
+    if isinstance(e, ast.Constant) and isinstance(e.value, (int, float)) and not isinstance(e.value, bool):
+        c = Fraction(e.value).limit_denominator(10 ** 6)
+        return LP.const(c)
+    if isinstance(e, ast.Name):
+        if e.id in env:
+            return env[e.id] if isinstance(env[e.id], LP) else _lp(env[e.id], env, syms, rules, depth + 1)
+        if e.id in syms:
+            return LP.sym(e.id)
+        raise NotPolynomial(f"name `{e.id}`")
+    if isinstance(e, ast.UnaryOp) and isinstance(e.op, ast.USub):
+        return -_lp(e.operand, env, syms, rules, depth + 1)
+    if isinstance(e, ast.BinOp):
+        if isinstance(e.op, ast.Add):
+            return _lp(e.left, env, syms, rules, depth + 1) + _lp(e.right, env, syms, rules, depth + 1)
+        if isinstance(e.op, ast.Sub):
+            return _lp(e.left, env, syms, rules, depth + 1) - _lp(e.right, env, syms, rules, depth + 1)
+        if isinstance(e.op, ast.Mult):
+            return _lp(e.left, env, syms, rules, depth + 1) * _lp(e.right, env, syms, rules, depth + 1)
+        if isinstance(e.op, ast.Div):
+            return _lp(e.left, env, syms, rules, depth + 1) * _lp(e.right, env, syms, rules, depth + 1).inverse()
+        if isinstance(e.op, ast.Pow):
+            k = _const_int(e.right)
+            if k is not None:
+                return _lp(e.left, env, syms, rules, depth + 1).power(k)
+    if isinstance(e, ast.Call):
+        name = e.func.attr if isinstance(e.func, ast.Attribute) else getattr(e.func, "id", "")
+        if name in ("sqrt", "csqrt", "cbrt") and len(e.args) == 1:
+            inner = _lp(e.args[0], env, syms, rules, depth + 1)
+            key = f"{'cbrt' if name == 'cbrt' else 'sqrt'}({inner.show()})"
+            rules[key] = (3 if name == "cbrt" else 2, inner)
+            return LP.sym(key)
+    raise NotPolynomial(f"`{ast.unparse(e)[:40]}` is outside + - * / ** sqrt cbrt")
+
+
+def rule_roots(run: Run, prog: Program) -> int:
+    run.rule("E12.roots", "the algebraic branches of roots() return roots: substituting the returned expression into the polynomial of that branch gives 0 as "
+                          "an identity (linear and quadratic branch, with sqrt(u)^2 = u), and the single value returned for a triple root x satisfies "
+                          "x^3 = -d/a (Vieta; cbrt(u)^3 = u)")
+    fn = prog.find_func("geometer.utils.math.roots") or prog.find_func("roots")
+    if fn is None:
+        run.add("E12.roots", "roots", "closed forms", UNDECIDED, "roots not found", "")
+        return 0
+    fn = prog.body_of(fn)
+    # coefficient names: the 4-tuple unpacking `a, b, c, d = p`
+    coef = None
+    for st in ast.walk(fn.node):
+        if isinstance(st, ast.Assign) and isinstance(st.targets[0], ast.Tuple) and len(st.targets[0].elts) == 4 and all(isinstance(x, ast.Name) for x in st.targets[0].elts):
+            coef = [x.id for x in st.targets[0].elts]
+            break
+    if coef is None:
+        run.add("E12.roots", fn.short, "closed forms", UNDECIDED, "the unpacking `a, b, c, d = p` was not found", fn.loc)
+        return 0
+    a, b, c, d = coef
+    syms = set(coef)
+    n = 0
+
+    def zero_tests(test: ast.AST) -> set[str]:
+        out = set()
+        for x in ast.walk(test):
+            if isinstance(x, ast.Compare) and len(x.ops) == 1 and isinstance(x.ops[0], ast.Eq) and isinstance(x.left, ast.Name) and _is_zero(x.comparators[0]):
+                out.add(x.left.id)
+        return out
+
+    def _is_zero(e):
+        return isinstance(e, ast.Constant) and e.value == 0
+
+    def returned_roots(body):
+        env = _local_defs(body)
+        for st in body:
+            if isinstance(st, ast.Return) and isinstance(st.value, ast.Call) and st.value.args and isinstance(st.value.args[0], (ast.List, ast.Tuple)):
+                return env, st, st.value.args[0].elts
+        return env, None, []
+
+    for st in fn.node.body:
+        if not isinstance(st, ast.If):
+            continue
+        zs = zero_tests(st.test)
+        env, ret, exprs = returned_roots(st.body)
+        if ret is None:
+            continue
+        loc = f"{fn.module.rel}:{ret.lineno}"
+        if zs == {a, b}:
+            branch, poly_of = "linear", lambda x: LP.sym(c) * x + LP.sym(d)
+        elif zs == {a}:
+            branch, poly_of = "quadratic", lambda x: LP.sym(b) * x * x + LP.sym(c) * x + LP.sym(d)
+        elif len(zs) >= 3 and not (zs & syms):
+            branch, poly_of = "triple root", None
+        else:
+            continue
+        for i, ex in enumerate(exprs):
+            n += 1
+            label = f"{branch} branch, root {i + 1}"
+            rules: dict = {}
+            try:
+                # the locals of the branch, evaluated in order (a name may be rebound: D = c**2 - 4*b*d; D = csqrt(D))
+                env = {}
+                for s2 in st.body:
+                    if isinstance(s2, ast.Assign) and len(s2.targets) == 1 and isinstance(s2.targets[0], ast.Name):
+                        try:
+                            env[s2.targets[0].id] = _lp(s2.value, env, syms, rules)
+                        except NotPolynomial:
+                            env.pop(s2.targets[0].id, None)
+                x = _lp(ex, env, syms, rules)
+                if poly_of is not None:
+                    resid = poly_of(x).rewrite(rules)
+                    what = "the polynomial of this branch at the returned value"
+                else:
+                    resid = (x.power(3) + LP.sym(d) * LP.sym(a).inverse()).rewrite(rules)
+                    what = "x^3 + d/a (product of the three equal roots is -d/a)"
+                    # the conditions of the branch (f == 0, g == 0 ...) are relations between the coefficients: each one that is linear in a
+                    # coefficient with a monomial factor is solved for it and used as a rewrite rule before the residual is judged
+                    outer_env: dict = {}
+                    for s2 in fn.node.body:
+                        if isinstance(s2, ast.Assign) and len(s2.targets) == 1 and isinstance(s2.targets[0], ast.Name):
+                            try:
+                                outer_env[s2.targets[0].id] = _lp(s2.value, outer_env, syms, {})
+                            except NotPolynomial:
+                                pass
+                    subst: list[tuple[str, LP]] = []
+
+                    def apply_subst(p_: LP) -> LP:
+                        for sym_, val_ in subst:
+                            out_ = LP()
+                            for k_, v_ in p_.t.items():
+                                term = LP({tuple((s3, e3) for s3, e3 in k_ if s3 != sym_): v_})
+                                e_ = dict(k_).get(sym_)
+                                if e_ is not None:
+                                    if e_.denominator != 1 or e_ < 0:
+                                        raise NotPolynomial("coefficient under a root or in a denominator")
+                                    term = term * val_.power(int(e_))
+                                out_ = out_ + term
+                            p_ = out_
+                        return p_
+
+                    for cond in sorted(zs):
+                        rel = outer_env.get(cond)
+                        if rel is None:
+                            continue
+                        rel = apply_subst(rel)
+                        for target in (c, d, b):
+                            lin = LP({k_: v_ for k_, v_ in rel.t.items() if dict(k_).get(target) == 1})
+                            rest = LP({k_: v_ for k_, v_ in rel.t.items() if target not in dict(k_)})
+                            if len(lin.t) == 1 and len(lin.t) + len(rest.t) == len(rel.t):
+                                coef_ = LP({tuple((s3, e3) for s3, e3 in k_ if s3 != target): v_ for k_, v_ in lin.t.items()})
+                                subst.append((target, (-rest) * coef_.inverse()))
+                                break
+                    resid = apply_subst(resid).rewrite(rules)
+                    resid = apply_subst(resid)
+            except NotPolynomial as e:
+                run.add("E12.roots", fn.short, label, UNDECIDED, f"not read as an algebraic expression: {e}", loc)
+                continue
+            if resid.is_zero():
+                run.add("E12.roots", fn.short, label, PROVEN, f"{what} vanishes identically", loc)
+            else:
+                run.add("E12.roots", fn.short, label, VIOLATION,
+                        f"`{ast.unparse(ex)[:50]}` is not a root in the {branch} branch: {what} is {resid.show()[:120]}, not 0"
+                        + (" - the sign is wrong: for x^3 - 3x^2 + 3x - 1 = (x - 1)^3 the value is -1" if branch == "triple root" else ""), loc)
+    return n
